@@ -8,6 +8,12 @@ CHECKS = {
  "C01": ("exploration", "model-based round-trip property test (proptest, boundary-constructing generators, scaled + production constants)",
          "Generated writer programs (interleavings, piece sizes placed on/next to cipher-buffer, chunk and block boundaries, all layer sets, levels, recipients) are executed through the real writer and read back through the real reader; names, bytes, sizes and SHA-256 are compared with an in-memory model. Exploration: finds alignment- and interleaving-dependent defects the suite cannot, establishes nothing beyond the explored programs.",
          "Trusts the harness model, the sha2 crate and that the scaled constants preserve the order/divisibility relations of the production ones; production programs are capped at 9 MiB.", "DESIGN.md section 4 C01"),
+ "C02": ("fault_enumeration", "exhaustive truncation enumeration over proptest-generated archives (scaled constants: every length x 2 modes; production: windows around every structural boundary + spread sample), repair output judged against the model",
+         "Every prefix of generated archives (all layer sets, levels, interleavings) is repaired in both modes and the repaired archive is re-read: no panic, output opens, names are original names, contents are prefixes, files not reported unfinished are complete, end-of-data status implies completeness. Exhaustive in the truncation length on the scaled build, so thin failing sets (15 lengths per chunk) are met by construction.",
+         "Archives are a generated sample; the scaled build assumes the layer algorithms depend on the constants only through their order/divisibility; production windows are +-24 bytes.", "DESIGN.md section 4 C02"),
+ "C05": ("fault_enumeration", "model-based completeness and monotonicity check of repair over generated intact archives and all their prefixes",
+         "Intact generated archives (compressed streams crossing 0..n block boundaries, all levels and entropies, flushes and piece ends on block edges) must repair completely with the end-of-data status; over the ordered truncation lengths no file may shrink; without compression the recovered bytes must equal the bytes whose records lie in the usable part of the stream computed from the model layout.",
+         "Usable-bytes computation trusts the record sizes of FORMAT.md and the chunk geometry; production prefixes are windows, not all lengths.", "DESIGN.md section 4 C05"),
  "C06": ("exploration", "differential property test against an independent implementation of FORMAT.md, both directions, plus incremental AES-GCM vs the aes-gcm crate over generated message splits",
          "Archives written by the library are decoded by refimpl (written from FORMAT.md only: header, ECIES wrap, nonce||BE32(i) chunks, brotli blocks + sizes footer, typed records, end marker, index) and must yield the model's files and the documented structure; archives encoded by refimpl with free parameters must be read identically by the library; the cipher core must equal standard AES-256-GCM for every split. A symmetric change of writer and reader is caught because the other side is independent.",
          "Trusts refimpl (self-test pins it to every number FORMAT.md prints for samples/archive_v1.mla) and the aes-gcm, hkdf, sha2, x25519-dalek, brotli crates as primitives.", "DESIGN.md section 4 C06"),
